@@ -12,6 +12,16 @@ CLAIMED = {
              "Lean/Mathlib; _gradient_iterative's traversal and gradient_quadratic_form are bounded/trusted (listed in evidence); "
              "known findings D2, D3 are listed in known_findings.json",
         design="6 C02"),
+    "C01": dict(
+        text="evaluate() of every scalar kind, _build_evaluator (one obligation per node kind / operator / operand class), "
+             "_build_vector_evaluator, _compile_cached and compile_expression are symbolically executed; the closure returned is "
+             "beta-reduced on a symbolic point x of symbolic length under an arbitrary injective index map (any permutation, any "
+             "superset) and against the parameter store *at call time*, and proved equal to the denotation of the tree; hashing of "
+             "the memo key and absence of exceptions are separate obligations.",
+        note="A1 (two summation orders are the same real number), A2 NumPy model table, A5, A6; QuadraticForm (nested sums) and the "
+             "iterative builder's stack discipline are bounded only; vector-valued ElementwisePower/ElementwiseUnary are outside "
+             "'scalar expression'; known findings D1, D2",
+        design="6 C01"),
     "C04": dict(
         text="The recursive degree routine, its cached/dispatching wrappers, Expression.degree (memo slot) and is_linear/is_quadratic are "
              "symbolically executed per node kind; a reported degree d is proved to bound a structural degree function whose soundness "
